@@ -91,3 +91,9 @@ Definition tpl_condb (tpl : its) : bool :=
   && Z.eqb (sumL dQ (filter (keepn (removedR tpl)) (gnodes tpl))) 0.
 Definition default_tpl_okb (tpl : its) : bool := wf_rcb tpl && edges_closedb tpl && same_elb tpl && tpl_condb tpl.
 
+(** a hydrogen LEDGER of an ITS graph: one entry per migrating hydrogen, (the atoms it leaves, the atoms it joins);
+    [ledger_dl lg n] = the reactant-minus-product hydrogen count the ledger gives atom n *)
+Definition ledger := list (list N * list N).
+Definition ledger_dl (lg : ledger) (n : N) : Z :=
+  fold_right (fun h acc => occurrences n (fst h) - occurrences n (snd h) + acc) 0 lg.
+
